@@ -18,6 +18,7 @@ pub fn register(v: &mut Vec<(&'static str, crate::Harness)>) {
     v.push(("h_c03_total", h_c03_total));
     v.push(("h_c03_fragment_scope", h_c03_fragment_scope));
     v.push(("h_c03_charref_value", h_c03_charref_value));
+    v.push(("h_c17_cdata_edges", h_c17_cdata_edges));
     v.push(("h_c17_spans", h_c17_spans));
     v.push(("h_c17_error_spans", h_c17_error_spans));
 }
@@ -632,7 +633,7 @@ pub fn h_c17_spans() {
 
 pub fn h_c17_error_spans() {
     let mut xot = Xot::new();
-    let k = sym::choose("k", 9);
+    let k = sym::choose("k", 11);
     let padn = sym::choose("pad", 3);
     let pad = " ".repeat(padn);
     let v = sym::any_string("v", 1);
@@ -648,6 +649,9 @@ pub fn h_c17_error_spans() {
         5 => format!("<a/>{}<b/>", pad),
         6 => format!("{}{}<a/>", v, pad),
         7 => format!("<a>{}</b>", pad),
+        // a reference that is not at the start of its text run / attribute value
+        9 => format!("<a>some leading text {}{}&#0;</a>", v, pad),
+        10 => format!("<a x=\"some leading text {}{}&#xFFFE;\"/>", v, pad),
         _ => format!("<a><b xml:id=\"i\"/>{}<c xml:id=\"i\"/></a>", pad),
     };
     let fragment = sym::choose("fragment", 2) == 1;
@@ -705,5 +709,48 @@ pub fn h_c03_charref_value() {
             }
         }
         Err(_) => sym::check("reference-to-xml-char-accepted", !xml_char),
+    }
+}
+
+/// text nodes made of CDATA sections at the edges of the run (CDATA content may be empty)
+pub fn h_c17_cdata_edges() {
+    let mut xot = Xot::new();
+    let k = sym::choose("k", 4);
+    let n = sym::choose("elen", 2);
+    let e = sym::any_string("e", n);
+    for c in e.chars() {
+        sym::assume(is_xml_char(c) & (c != ']') & (c != '\r'));
+    }
+    let fragment = sym::choose("fragment", 2) == 1;
+    let (src, want_slice, want_text) = match k {
+        0 => (format!("<a><![CDATA[{}]]></a>", e), e.clone(), e.clone()),
+        1 => (format!("<a>foo<![CDATA[{}]]></a>", e), format!("foo<![CDATA[{}", e), format!("foo{}", e)),
+        2 => (format!("<a><![CDATA[{}]]>foo</a>", e), format!("{}]]>foo", e), format!("{}foo", e)),
+        _ => (format!("<a><![CDATA[{}]]><![CDATA[x]]></a>", e), format!("{}]]><![CDATA[x", e), format!("{}x", e)),
+    };
+    let r = if fragment { xot.parse_fragment_with_span_info(&src) } else { xot.parse_with_span_info(&src) };
+    let (doc, si) = match r {
+        Ok(x) => x,
+        Err(_) => {
+            sym::check("well-formed-document-accepted", false);
+            return;
+        }
+    };
+    let el = xot.children(doc).find(|n| xot.is_element(*n)).unwrap();
+    let kids: Vec<Node> = xot.children(el).collect();
+    // an empty CDATA section alone makes an empty text node or none; everything else one text node
+    if kids.is_empty() {
+        sym::check("text-node-created", want_text.is_empty());
+        return;
+    }
+    sym::check("one-merged-text-node", kids.len() == 1 && xot.text_str(kids[0]) == Some(want_text.as_str()));
+    match si.get(SpanInfoKey::Text(kids[0])) {
+        Some(sp) => {
+            sym::check("text-span-inside-source", sp.start <= sp.end && sp.end <= src.len());
+            if sp.start <= sp.end && sp.end <= src.len() {
+                sym::check("text-span-from-first-to-last-part", src.get(sp.range()) == Some(want_slice.as_str()));
+            }
+        }
+        None => sym::check("every-text-node-has-a-span", false),
     }
 }
